@@ -363,6 +363,13 @@ func (prop) Run(in json.RawMessage, scratch string) core.Result {
 		}
 		if pres == "reflect" {
 			argCoq = "(IdR " + acc.view(view, 12) + ")"
+		} else if al, ok := x.(*types.Alias); ok {
+			// ident.Frag tests for *types.Alias before types.Type: the predeclared any arrives here
+			argCoq = "(IdAlias " + core.Hex(al.String()) + ")"
+			_ = acc.view(view, 12)
+			if r, err := gengotypes.ParseRef(al.String()); err == nil {
+				extraNames = append(extraNames, r.Name())
+			}
 		} else {
 			argCoq = "(IdT " + acc.view(view, 12) + ")"
 		}
@@ -513,7 +520,7 @@ func (prop) Run(in json.RawMessage, scratch string) core.Result {
 		for _, t := range acc.tags {
 			if !seen[t] {
 				seen[t] = true
-				cbItems = append(cbItems, "("+core.Hex(t)+", "+core.CoqBool(strconv.CanBackquote(t))+")")
+				cbItems = append(cbItems, "("+core.Hex(t)+", ("+core.CoqBool(strconv.CanBackquote(t))+", "+core.Hex(strconv.Quote(t))+"))")
 			}
 		}
 	}
